@@ -10,18 +10,18 @@ import (
 )
 
 // mtimes used by the harnesses (ns); arithmetic on them stays concrete
-var mtimeChoices = []int64{1500000000123, 0} // a sub-second value and the epoch itself (a zero field is absent on the wire)
+var vh_mtimeChoices = []int64{1500000000123, 0} // a sub-second value and the epoch itself (a zero field is absent on the wire)
 
-func chooseMtime(name string) int64 { return mtimeChoices[v.Choose(name, len(mtimeChoices))] }
+func vh_chooseMtime(name string) int64 { return vh_mtimeChoices[v.Choose(name, len(vh_mtimeChoices))] }
 
-const permMask = 0777 | uint32(os.ModeSetuid) | uint32(os.ModeSetgid) | uint32(os.ModeSticky)
+const vh_permMask = 0777 | uint32(os.ModeSetuid) | uint32(os.ModeSetgid) | uint32(os.ModeSticky)
 
-type srcEnt struct {
+type vh_srcEnt struct {
 	stat *types.Stat
 	data []byte
 }
 
-func goModeToUnixPerm(mode uint32) uint32 {
+func vh_goModeToUnixPerm(mode uint32) uint32 {
 	p := mode & 0777
 	p |= ((mode >> 23) & 1) << 11
 	p |= ((mode >> 22) & 1) << 10
@@ -33,28 +33,28 @@ func goModeToUnixPerm(mode uint32) uint32 {
 // regular file, a symlink or a fifo; e may be a regular file, a symlink, a directory or (if d/f is
 // regular) a hard link to d/f. Permission/special bits, uid, gid symbolic; mtimes from a small set;
 // regular files carry 0..maxb symbolic bytes.
-func symSource(maxb int) []*srcEnt {
+func vh_symSource(maxb int) []*vh_srcEnt {
 	shape := v.Param("SHAPE", 2)
-	var out []*srcEnt
-	mk := func(p string, class int) *srcEnt {
-		st := &types.Stat{Path: p, Mode: modeFor(class, 0) | (v.U32("perm") & permMask), Uid: v.U32("uid"), Gid: v.U32("gid"), ModTime: chooseMtime("mtime")}
-		e := &srcEnt{stat: st}
+	var out []*vh_srcEnt
+	mk := func(p string, class int) *vh_srcEnt {
+		st := &types.Stat{Path: p, Mode: vh_modeFor(class, 0) | (v.U32("perm") & vh_permMask), Uid: v.U32("uid"), Gid: v.U32("gid"), ModTime: vh_chooseMtime("mtime")}
+		e := &vh_srcEnt{stat: st}
 		switch class {
-		case clsFile:
+		case vh_clsFile:
 			e.data = v.Bytes("data", v.Choose("size", maxb+1))
 			st.Size = int64(len(e.data))
-		case clsSymlink:
+		case vh_clsSymlink:
 			st.Linkname = "tgt"
-			st.Mode = modeFor(clsSymlink, 0777)
+			st.Mode = vh_modeFor(vh_clsSymlink, 0777)
 			st.Size = 3
 		}
 		out = append(out, e)
 		return e
 	}
 	if shape == 0 && v.Param("LN", 0) != 0 && v.Bool("has-listing-name") {
-		mk(metadataPath, clsFile) // a plain transfer treats this name like any other
+		mk(metadataPath, vh_clsFile) // a plain transfer treats this name like any other
 	}
-	mk("d", clsDir)
+	mk("d", vh_clsDir)
 	fClass := -1
 	if shape != 0 && v.Bool("has-d/f") {
 		fClass = 1 + v.Choose("class-d/f", 3)
@@ -67,14 +67,14 @@ func symSource(maxb int) []*srcEnt {
 	switch ce {
 	case 0:
 	case 1:
-		mk("e", clsFile)
+		mk("e", vh_clsFile)
 	case 2:
-		mk("e", clsSymlink)
+		mk("e", vh_clsSymlink)
 	case 3:
-		mk("e", clsDir)
+		mk("e", vh_clsDir)
 	case 4:
-		v.Assume(fClass == clsFile)
-		e := mk("e", clsFile)
+		v.Assume(fClass == vh_clsFile)
+		e := mk("e", vh_clsFile)
 		e.stat.Linkname = "d/f"
 		e.stat.Size = 0
 		e.data = nil
@@ -92,18 +92,18 @@ func symSource(maxb int) []*srcEnt {
 
 // symPriorDest populates dest for each source path with one of: nothing, an identical entry,
 // a regular file with other metadata, a directory, a symlink; plus optionally a stale entry "zz".
-func symPriorDest(dest string, src []*srcEnt) map[string]string {
-	return symPriorDestGid(dest, src, false, 0)
+func vh_symPriorDest(dest string, src []*vh_srcEnt) map[string]string {
+	return vh_symPriorDestGid(dest, src, false, 0)
 }
 
 // symPriorDestGid: as symPriorDest; with rewrite set an "identical" entry carries group gid (what a
 // receiver whose filter rewrites the group left behind).
-func symPriorDestGid(dest string, src []*srcEnt, rewrite bool, gid uint32) map[string]string {
+func vh_symPriorDestGid(dest string, src []*vh_srcEnt, rewrite bool, gid uint32) map[string]string {
 	state := map[string]string{}
 	dirOK := map[string]bool{"": true}
 	for _, e := range src {
 		p := e.stat.Path
-		par := specParent(p)
+		par := vh_specParent(p)
 		if !dirOK[par] {
 			state[p] = "absent"
 			continue
@@ -128,7 +128,7 @@ func symPriorDestGid(dest string, src []*srcEnt, rewrite bool, gid uint32) map[s
 			// a pure metadata edit of a directory: same mode and mtime, other owner
 			state[p] = "dir-chown"
 			v.Cover("dir-chown")
-			m.MkDir(full, goModeToUnixPerm(st.Mode), st.Uid+1, st.Gid, st.ModTime)
+			m.MkDir(full, vh_goModeToUnixPerm(st.Mode), st.Uid+1, st.Gid, st.ModTime)
 			dirOK[p] = true
 			continue
 		}
@@ -138,7 +138,7 @@ func symPriorDestGid(dest string, src []*srcEnt, rewrite bool, gid uint32) map[s
 		case 1:
 			v.Assume(!isHardlink)
 			state[p] = "same"
-			perm := goModeToUnixPerm(st.Mode)
+			perm := vh_goModeToUnixPerm(st.Mode)
 			if rewrite {
 				st = st.Clone()
 				st.Gid = gid
@@ -169,7 +169,7 @@ func symPriorDestGid(dest string, src []*srcEnt, rewrite bool, gid uint32) map[s
 		case 5:
 			// a pure metadata edit: same bytes, size and mtime, other owner
 			state[p] = "other-meta"
-			m.MkFile(full, e.data, goModeToUnixPerm(st.Mode), st.Uid+1, st.Gid, st.ModTime)
+			m.MkFile(full, e.data, vh_goModeToUnixPerm(st.Mode), st.Uid+1, st.Gid, st.ModTime)
 		}
 	}
 	if v.Param("SHAPE", 2) == 0 {
@@ -190,7 +190,7 @@ func symPriorDestGid(dest string, src []*srcEnt, rewrite bool, gid uint32) map[s
 }
 
 // specCheckDest: the destination equals the source view (C01's equality list).
-func specCheckDest(dest string, src []*srcEnt, createdDirs map[string]bool) {
+func vh_specCheckDest(dest string, src []*vh_srcEnt, createdDirs map[string]bool) {
 	snap := m.Snapshot(dest)
 	v.Assert(len(snap) == len(src), "destination has exactly the paths of the source view")
 	for _, e := range src {
@@ -218,7 +218,7 @@ func specCheckDest(dest string, src []*srcEnt, createdDirs map[string]bool) {
 		v.Assert(got.Kind == wantKind, "entry type matches the source")
 		v.Assert(got.Uid == st.Uid && got.Gid == st.Gid, "uid/gid match the source")
 		if wantKind != m.KSymlink {
-			v.Assert(got.Perm == goModeToUnixPerm(st.Mode), "permission and setuid/setgid/sticky bits match the source")
+			v.Assert(got.Perm == vh_goModeToUnixPerm(st.Mode), "permission and setuid/setgid/sticky bits match the source")
 		} else {
 			v.Assert(got.Target == st.Linkname, "symlink target matches the source")
 		}
@@ -251,10 +251,10 @@ func VH_C07_receiver() {
 	maxb := v.Param("MAXB", 2)
 	m.Reset()
 	dest := m.Root("dest")
-	src := symSource(maxb)
-	prior := symPriorDest(dest, src)
+	src := vh_symSource(maxb)
+	prior := vh_symPriorDest(dest, src)
 	ctx := context.Background()
-	rcv, snd := newStreamPair(ctx, 256)
+	rcv, snd := vh_newStreamPair(ctx, 256)
 	// LAT=1: every SendMsg of the receiver returns only after the peer reacted, so the sender's DATA
 	// for an id can reach the receive loop before the REQ call has returned
 	rcv.latency = v.Param("LAT", 0) != 0
@@ -321,7 +321,7 @@ func VH_C07_receiver() {
 			created[e.stat.Path] = true
 		}
 	}
-	specCheckDest(dest, src, created)
+	vh_specCheckDest(dest, src, created)
 	v.Assert(v.Goroutines() == 0, "every receiver goroutine has ended")
 	v.Cover("done")
 }
